@@ -324,6 +324,9 @@ void constructCommon(ModelSignature model,
 
         load_complete(); // flush completed jobs
     }
+
+    // the main file holds the final state, a backup left behind would be picked up by an unrelated later run
+    if (!filename.empty()) std::remove(filename_old.c_str());
 }
 
 /*!
